@@ -1,5 +1,147 @@
 package main
 
-import "math/rand"
+import (
+	"context"
+	"errors"
+	"fmt"
+	"math/rand"
+	"sync"
+	"time"
 
-func runFree(id int, r *rand.Rand) Case { return Case{ID: id, Mode: "free"} }
+	"github.com/hashicorp/consul/agent/consul/stream"
+	"github.com/hashicorp/consul/agent/submatview"
+)
+
+// Free-running mode (thorough tier, built with -race): the publisher's Run goroutine, one writer
+// goroutine and one goroutine per subscriber (real Subscription.Next blocking, real materializer
+// handlers) run concurrently on a generated write history.  Only the final state is compared: after
+// the writer has finished and the system is quiescent every subscriber's view must equal the direct
+// query result.  Writes that trigger the known event-computation defect (an instance losing its
+// connect-native flag) are not generated here, and no Restore happens.
+
+type freeClient struct {
+	ts   TS
+	tok  int
+	kind int
+	view submatview.View
+	mat  *submatview.VerifMat
+	subs int
+	errs []string
+}
+
+func (w *World) runSubscriber(ctx context.Context, c *freeClient, r *rand.Rand, wg *sync.WaitGroup) {
+	defer wg.Done()
+	for ctx.Err() == nil {
+		idx := c.mat.VerifBegin()
+		req := w.subscribeRequest(c.ts, c.tok, idx)
+		sub, err := w.pub.Subscribe(req)
+		if err != nil {
+			c.errs = append(c.errs, "subscribe: "+err.Error())
+			return
+		}
+		c.subs++
+		budget := 1 + r.Intn(40) // deliveries before this client drops the subscription and resubscribes
+		for {
+			ev, err := sub.Next(ctx)
+			if err != nil {
+				if errors.Is(err, stream.ErrSubForceClosed) || errors.Is(err, stream.ErrACLChanged) {
+					if c.kind == 0 {
+						c.mat.VerifAborted()
+					}
+				}
+				break
+			}
+			if !ev.Payload.HasReadPermission(w.authz) {
+				continue
+			}
+			if herr := c.mat.VerifHandle(ev.Payload.ToSubscriptionEvent(ev.Index)); herr != nil {
+				c.errs = append(c.errs, "handler: "+herr.Error())
+				break
+			}
+			if r.Intn(8) == 0 {
+				time.Sleep(time.Duration(r.Intn(200)) * time.Microsecond)
+			}
+			budget--
+			if budget == 0 && r.Intn(3) == 0 {
+				break
+			}
+		}
+		sub.Unsubscribe()
+	}
+}
+
+func runFree(id int, r *rand.Rand) Case {
+	w := newWorld(time.Hour)
+	defer w.close()
+	ctx, cancel := context.WithCancel(context.Background())
+	defer cancel()
+	go w.pub.Run(ctx)
+
+	g := &genState{r: r, subbed: map[int]bool{}, cts: map[int]TS{}, insts: map[string]bool{}, tokens: map[int]bool{}, pols: map[int]bool{}, flavour: "acl"}
+	var writes []*Write
+	for len(writes) < 30+r.Intn(40) {
+		x := g.write(false)
+		if x.K == "svc" && (x.SID == "web1" || x.SID == "web2" || x.SID == "api1") {
+			x.Kind = ""
+			if x.SID == "api1" {
+				x.Kind = "native" // fixed per service id: no instance ever loses the flag
+			}
+		}
+		writes = append(writes, x)
+	}
+
+	var wg sync.WaitGroup
+	var clients []*freeClient
+	for i := 0; i < 3+r.Intn(3); i++ {
+		ts := allTS[r.Intn(len(allTS))]
+		c := &freeClient{ts: ts, tok: r.Intn(3), kind: r.Intn(2), view: newView(ts)}
+		c.mat = submatview.VerifNewMat(c.view)
+		clients = append(clients, c)
+		wg.Add(1)
+		go w.runSubscriber(ctx, c, rand.New(rand.NewSource(r.Int63())), &wg)
+	}
+	wr := rand.New(rand.NewSource(r.Int63()))
+	for _, x := range writes {
+		w.idx++
+		_ = safely(func() error { return w.apply(w.cur(), w.idx, x) })
+		if wr.Intn(3) == 0 {
+			time.Sleep(time.Duration(wr.Intn(300)) * time.Microsecond)
+		}
+	}
+
+	c := Case{ID: id, Gen: "free", Mode: "free", Cache: true}
+	// quiescence: every view equals the current query result
+	deadline := time.Now().Add(10 * time.Second)
+	var bad string
+	for {
+		bad = ""
+		for i, fc := range clients {
+			want := w.query(fc.ts)
+			tmp := &Client{ts: fc.ts, mat: fc.mat}
+			got := w.viewRows(tmp)
+			if !sameRows(want.Rows, got) {
+				bad = fmt.Sprintf("client %d subject %v: view %v (index %d), query %v (index %d)", i, fc.ts, got, fc.mat.VerifIndex(), want.Rows, want.Idx)
+			}
+		}
+		if bad == "" || time.Now().After(deadline) {
+			break
+		}
+		time.Sleep(2 * time.Millisecond)
+	}
+	cancel()
+	wg.Wait()
+	for i, fc := range clients {
+		for _, e := range fc.errs {
+			bad = fmt.Sprintf("client %d: %s", i, e)
+		}
+		c.Steps = append(c.Steps, Step{Op: "free-client", C: i, TS: fc.ts, Tok: fc.tok, CK: fc.kind, Idx: uint64(fc.subs)})
+	}
+	for _, x := range writes {
+		c.Steps = append(c.Steps, Step{Op: "commit", W: x})
+	}
+	if bad != "" {
+		c.Fails = []Failure{{Kind: "final-view-mismatch", Cause: "unknown", Step: -1, C: -1, Msg: bad}}
+		c.Oracle = "final-view-mismatch:unknown"
+	}
+	return c
+}
